@@ -277,6 +277,41 @@ Example C19_repeat_offender_is_frozen_again :
     [EvTx true; EvTx true; EvTx true; EvVerdict 2 4 GUILTY 2 0 2 4; EvTx false; EvTx false; EvTx false; EvTx false].
 Proof. vm_compute. repeat split; reflexivity. Qed.
 
+(* (10) strict reading of "votes of distinct CURRENTLY active validators": every verdict of an EndBlock
+   is also reached on the votes of the validators that are active after that block's election —
+   outside the trigger [stale_votes] (some voter of the request is no longer active at the tally).
+   (1) above is the reading "active when they voted" and holds without a guard. *)
+Theorem C19_verdict_on_currently_active_votes_partial : forall c s q ord s' ev e,
+  end_block c s q ord = (s', ev) -> e ∈ ev ->
+  match e with
+  | EvVerdict id mal st yes no req active =>
+      exists r, reqs s !! id = Some r /\
+        (stale_votes (elect c s q).1 (r_votes r) = false ->
+         (st = GUILTY -> guilty_x c (count_active_choice (elect c s q).1 YES (r_votes r)) req = true) /\
+         (st = INNOCENT -> innocent_x c (count_active_choice (elect c s q).1 NO (r_votes r)) req = true))
+  | _ => True
+  end.
+Proof. exact end_block_active_votes. Qed.
+Print Assumptions C19_verdict_on_currently_active_votes_partial.
+
+(* ... and is false inside it: validator 1 votes YES and then drops out of the active set (its power
+   falls below the minimum); validator 2's YES vote gives 2 of ceil(3*50%) = 2 required: GUILTY,
+   although the currently active voters alone give 1 of 2.  Known finding C19.stale_votes_counted,
+   reproduced on the real code (findings/C19_stale_votes_counted.json). *)
+Theorem C19_verdict_on_currently_active_votes_refuted_1 : exists c stk ops q id r,
+  let s := (run c (init_with stk) ops).1 in
+  reqs s !! id = Some r /\ stale_votes (elect c s q).1 (r_votes r) = true /\
+  (end_block c s q []).2 = [EvFrozen 4 BYZ 9; EvPenalty 4 2997000 899100 (bounty_of c 899100); EvVerdict id 4 GUILTY 2 0 2 3] /\
+  guilty_x c (count_active_choice (elect c s q).1 YES (r_votes r)) 2 = false.
+Proof.
+  exists cfg50, q4,
+    [OBegin 2 30 []; OEnd q4 []; OBegin 6 90 []; OAllege 0 2 4 6; OVote 0 1 YES; OEnd q4 [];
+     OBegin 8 120 []; OEnd [(2, 2999000); (3, 2998000); (4, 2997000); (1, 500)] [];
+     OBegin 9 135 []; OVote 0 2 YES],
+    [(2, 2999000); (3, 2998000); (4, 2997000); (1, 500)], 0, (mkReq 2 4 6 VOTING [(1, YES); (2, YES)]).
+  vm_compute. repeat split; reflexivity.
+Qed.
+
 (* non-vacuity: the hypotheses of the theorems above are met by a concrete history in which a
    verdict is reached with votes of distinct active validators, the stake drops by the penalty and
    the bounty program is credited *)
